@@ -9,7 +9,8 @@ from .. import faults as F
 PROPERTY = 'C06'
 LEVEL = 'fault_enumeration'
 RULE = ('one victim task (payloads: two delays, lock with a competing holder, nested scope, immediate return, return after a '
-        'postponement, raise, self-cancel; started now / after=1 / at=1) with 0-1 siblings and 1-2 awaiters that await it '
+        'postponement, raise (also a falsy exception object), self-cancel, awaiting only finished tasks after its last pause, suspended in '
+        'an until block whose child ends / fails, handling its cancellation gracefully; started now / after=1 / at=1) with 0-1 siblings and 1-2 awaiters that await it '
         'twice, before and after completion; cancel() injected at EVERY activation boundary (before start, at each suspension, '
         'after completion) with 1 and 2 deviations (repeated cancel, distinct tokens). Oracle: status word automaton sampled at '
         'every boundary, identical result object for all awaiters, cancellation semantics by status at the cancel, parent and '
@@ -27,6 +28,10 @@ PAYLOADS = {
     'ret': [['RETURN', 7]],
     'iret': [['INSTANT'], ['RETURN', 8]],
     'raise': [['D', 1], ['RAISE', 'KeyError', 'v']],
+    # fails with an exception object that is falsy
+    'raisefalsy': [['D', 1], ['RAISE', 'Empty', 'v']],
+    # wakes up and then only awaits tasks that are finished already (each such await is still a suspension point)
+    'awaitdone': [['D', 1], ['AWAIT', 'fin'], ['AWAITDONE', 'fin'], ['AWAIT', 'fin'], ['RETURN', 9]],
     'selfcancel': [['D', 1], ['CANCEL', 'v', 'self'], ['INSTANT'], ['D', 1]],
     'instant': [['INSTANT'], ['INSTANT']],
     'graceful': [['ONCANCEL', [['D', 2]], [['D', 3]]], ['INSTANT']],
@@ -47,6 +52,8 @@ def program(payload, start, awaiters, sibling, vfirst):
     v = ['DO', 'v', PAYLOADS[payload], start]
     if payload == 'lock':
         kids.append(['DO', 'holder', [['LOCK', 'l', [['D', 1]]]]])
+    if payload == 'awaitdone':
+        kids.append(['DO', 'fin', [['RETURN', 3]]])
     if vfirst:
         kids.append(v)
     for i, d in enumerate(awaiters):
@@ -122,7 +129,7 @@ def lifecycle(ctx, snaps, program, faults):
     # (2) awaiters: identical results, right kind, right time
     results = []
     for idx, (kind, act, pc, now, data) in enumerate(log):
-        if kind in ('end', 'exc') and idx and op_of(log, idx) == 'AWAIT':
+        if kind in ('end', 'exc') and idx and op_of(log, idx) == 'AWAIT' and act != 'v':      # (awaits OF the victim, not by it)
             st = start_of(log, idx)
             results.append((kind, data, now, log[st][3], act))
     # an awaiter that was itself closed or interrupted (its scope failed) received nothing from the task
@@ -170,6 +177,14 @@ def lifecycle(ctx, snaps, program, faults):
         else:
             # running: either it finished on its own within this time step before the signal arrived, or it is cancelled now
             own_end = ended is not None and not isinstance(log[ended][4], CancelTask)
+            # (finishing on its own after the cancel is only possible if it met no suspension point on the way: every
+            # operation other than the ones below is a suspension point, at which the cancellation has to be raised)
+            silent = ('RETURN', 'RAISE', 'PROBE', 'DO', 'CANCEL', 'NOP', 'TRY')
+            met_suspension = ended is not None and any(r[0] == 'start' and r[1] == 'v' and r[4] not in silent
+                                                       for r in log[idx:ended])
+            if own_end and met_suspension and ended > idx and program['_payload'] == 'awaitdone':
+                msgs.append('cancelled at %r before it resumed, it then passed the suspension point(s) %r and still finished '
+                            'on its own' % (t_c, [r[4] for r in log[idx:ended] if r[0] == 'start' and r[1] == 'v' and r[4] not in silent]))
             if own_end and log[ended][3] == t_c and ended > idx or (own_end and ended < idx):
                 if final == 'CANCELLED':
                     msgs.append('the task completed on its own at %r but is reported cancelled' % t_c)
@@ -197,6 +212,14 @@ def lifecycle(ctx, snaps, program, faults):
                 if began is not None and start and t_c < start_date:
                     msgs.append('cancelled at %r before its start date %r but its code ran' % (t_c, start_date))
         if final == 'CANCELLED':
+            # the token (and cause) awaiters see belong to the very cancellation that left the payload
+            if ended is not None and isinstance(log[ended][4], CancelTask):
+                left = log[ended][4]
+                for k, d, _, _, act in results:
+                    if isinstance(d, TaskCancelled) and (tuple(d.args) != tuple(left.token) or d.__cause__ is not left):
+                        msgs.append('%s got TaskCancelled%r but the cancellation that ended the task carried %r' % (
+                            act, d.args, tuple(left.token)))
+                        break
             for k, d, _, _, act in results:
                 if program['_payload'] == 'graceful':
                     # the cancel that finally ends the task may be a later one that interrupted the cleanup
